@@ -108,7 +108,7 @@ func (szr *Sizer) GetAt(values map[string]string, idx uint16) (map[string]string
 			}
 			v = v[c:]
 			nl := strings.Index(v, "\n")
-			if nl > 0 {
+			if nl >= 0 {
 				v = v[:nl]
 			}
 			b := bytes.ReplaceAll([]byte(v), []byte{0x00}, []byte{0x0a})
